@@ -24,9 +24,11 @@ for id in $ids; do
   if [ "$applies" = yes ]; then
     tests=$(cd "$wt" && /venv/bin/python -m pytest -q -p no:cacheprovider --timeout=900 2>&1 | tail -1 | grep -oE '[0-9]+ passed|[0-9]+ failed' | tr '\n' ' ')
     for chk in $checks; do
-      o=$(cd "$here" && VERIF_REPO="$wt" VERIF_NO_EVIDENCE=1 VERIF_STOP_ON_VIOLATION=1 timeout 1800 ./vf "$chk" quick 2>&1); rc=$?
+      tier=$(python3-vt -c "import json; print(json.load(open('$d/meta.json')).get('tier') or 'quick')")
+      o=$(cd "$here" && VERIF_REPO="$wt" VERIF_NO_EVIDENCE=1 VERIF_STOP_ON_VIOLATION=1 timeout 3000 ./vf "$chk" $tier 2>&1); rc=$?
       what=$(echo "$o" | grep -m1 'what:' | sed 's/ *what: //' | cut -c1-140 | tr '|' '/')
-      res=$([ $rc -eq 1 ] && echo CAUGHT || echo "rc=$rc")
+      res=$([ $rc -eq 1 ] && echo "CAUGHT$([ $tier = thorough ] && echo ' (thorough tier)')" || echo "rc=$rc")
+      [ $rc -ne 1 ] && python3-vt -c "import json,sys; sys.exit(0 if str(json.load(open('$d/meta.json')).get('status','')).startswith('not caught') else 1)" && res="not caught (documented: no sound oracle separates it)"
       echo "| $id | yes | $tests | $chk | $res | $what |" >> "$out.tmp"
       echo "$id $chk $res"
     done
@@ -37,3 +39,26 @@ for id in $ids; do
   fi
 done
 mv "$out.tmp" "$out"
+if [ $# -gt 0 ] && [ -f "$here/seeded/RESULTS.md" ]; then
+  python3-vt - "$here/seeded/RESULTS.md" "$out" <<'P'
+import sys
+full, part = sys.argv[1:3]
+def rows(path):
+    head, body = [], {}
+    for line in open(path):
+        if line.startswith('| C'):
+            cells = [c.strip() for c in line.strip().strip('|').split('|')]
+            body[(cells[0], cells[3])] = line
+        elif not body:
+            head.append(line)
+    return head, body
+h, b = rows(full)
+_, nb = rows(part)
+for (seed, chk) in list(b):
+    if any(seed == s2 for (s2, _) in nb):
+        del b[(seed, chk)]
+b.update(nb)
+open(full, 'w').write(''.join(h) + ''.join(b[k] for k in sorted(b)))
+P
+  rm -f "$out"
+fi
